@@ -332,7 +332,12 @@ class EptMapResult:
                     b"".join(f.pack() for f in t),
                 ]
             )
-            padding = -(len(b_t)) % 4
+            # Each tower is aligned to 8 bytes (NDR64 pointer alignment), the
+            # status field after the last tower only needs 4 byte alignment.
+            if idx == len(self.towers) - 1:
+                padding = -(len(b_t)) % 4
+            else:
+                padding = -(len(b_t) + 4) % 8
             b_tower += b"".join(
                 [
                     len(b_t).to_bytes(8, byteorder="little"),
